@@ -10,6 +10,8 @@ import DltVerif.Model.Encode
 import DltVerif.Lemmas.Bits
 import DltVerif.Spec.Codes
 import DltVerif.Lemmas.CodecTypeInfo
+import DltVerif.Lemmas.TypeInfoBits
+import DltVerif.Lemmas.CodecEncode
 
 namespace Dlt
 
@@ -95,6 +97,27 @@ theorem C14_ti_accept (w : BitVec 32) : (TypeInfo.ofU32 w).isSome = Spec.tiSuppo
     width from TYLE and the kind bits, VARI, TRAI, SCOD by weights) -/
 theorem C14_ti_layout (w : BitVec 32) : TypeInfo.ofU32 w = Spec.tiDecode w.toNat :=
   ofU32_eq_tiDecode w
+
+/-- all 2^32 words: the re-encoding of a decoded word differs from the word only in bits the
+    format leaves unused for that kind. Field by field (`m` the re-encoding, `n` the word):
+    the kind bits 4..10, VARI (11), TRAI (13) and SCOD (15..17) are reproduced; TYLE (0..3) is
+    reproduced when the kind has a width and FIXP (12) when the kind is an integer; STRU (14),
+    the reserved bits 18..31, TYLE of a kind without width and FIXP of a non-integer kind are
+    zero in the re-encoding. -/
+theorem C14_ti_unused (w : BitVec 32) (d : TypeInfo) (h : TypeInfo.ofU32 w = some d) :
+    let m := d.toU32.toNat
+    let n := w.toNat
+    m / 16 % 128 = n / 16 % 128 ∧ m / 2048 % 2 = n / 2048 % 2 ∧ m / 8192 % 2 = n / 8192 % 2
+    ∧ m / 32768 % 8 = n / 32768 % 8
+    ∧ (d.kind.hasWidth = true → m % 16 = n % 16)
+    ∧ (d.kind.isInteger = true → m / 4096 % 2 = n / 4096 % 2)
+    ∧ m / 16384 % 2 = 0 ∧ m / 262144 = 0
+    ∧ (d.kind.hasWidth = false → m % 16 = 0)
+    ∧ (d.kind.isInteger = false → m / 4096 % 2 = 0) := by
+  have hc := ti_decode_canonical w d h
+  rw [ofU32_eq_tiDecode] at h
+  rw [← tiWord_eq d hc]
+  exact tiWord_of_decode w.toNat d h
 
 -- non-vacuity: a word with unused bits set (reserved bits, STRU) decodes and re-encodes
 example : TypeInfo.ofU32 0xFFFC4823#32 = some
